@@ -227,6 +227,17 @@ Definition run_files (fl : flags) (zod : bool) (w : omega) (p : project) : optio
   | Some o => Some (o, if f_visualize fl then Some (viz w p) else None)
   end.
 
+(* ---------- the output directory ---------- *)
+(* FileWriter::write_typescript_file is fs::write: the whole content of the named file is replaced, every
+   other name of the directory is left alone.  A directory is an association list name -> content. *)
+Definition dir (C : Type) := list (nat * C).
+Definition out_files (o : output) : dir (list decl) :=
+  [(0, o_types o); (1, o_commands o)] ++ (match o_events o with Some e => [(2, e)] | None => [] end) ++ [(3, o_index o)].
+Definition write_all {C} (prior : dir C) (fs : dir C) : dir C :=
+  fs ++ filter (fun kv => negb (memb (fst kv) (map fst fs))) prior.
+Definition read {C} (d : dir C) (k : nat) : option C :=
+  match find (fun kv => Nat.eqb (fst kv) k) d with Some kv => Some (snd kv) | None => None end.
+
 (* ---------- known classes (boolean, shared by theorems and the run-time matcher) ---------- *)
 Fixpoint has_dup (l : list name) : bool :=
   match l with [] => false | x :: r => memb x r || has_dup r end.
